@@ -10,6 +10,7 @@ import (
 	"strconv"
 	"strings"
 	"sync/atomic"
+	"syscall"
 	"testing"
 	"time"
 
@@ -41,18 +42,18 @@ type rig struct {
 	progress int64 // polls seen so far, read by the watchdog goroutine
 }
 
-// wedged is returned by watched when a run neither finished nor reached a polling point for stallLimit.
-const stallLimit = 40 * time.Second
+// A run that is still going but has not reached a polling point while the process burnt stallCPU seconds of
+// CPU has stopped polling — the wedge that C18 forbids. CPU time (getrusage), not wall time: on a loaded
+// machine a slow but polling run must never be mistaken for it.
+const stallCPU = 15.0
 
-// watched runs fn on its own goroutine and watches the poll counter: a run that is still going but has
-// not reached a polling point for stallLimit has stopped polling — the wedge that C18 forbids. (Slow but
-// polling runs are never mistaken for it, whatever the machine load.)
+const wedgeMsg = "the run went on for 15 s of CPU time without reaching a single interrupt polling point (an interrupt can not be delivered: unbounded progress between polls)"
+
 func (r *rig) watched(fn func() harness.RunResult) (harness.RunResult, bool) {
 	done := make(chan harness.RunResult, 1)
 	go func() { done <- fn() }()
-	last := atomic.LoadInt64(&r.progress)
-	stalled := time.Duration(0)
-	tick := time.NewTicker(500 * time.Millisecond)
+	last, cpuAtLast := atomic.LoadInt64(&r.progress), cpuSeconds()
+	tick := time.NewTicker(250 * time.Millisecond)
 	defer tick.Stop()
 	for {
 		select {
@@ -60,8 +61,8 @@ func (r *rig) watched(fn func() harness.RunResult) (harness.RunResult, bool) {
 			return res, false
 		case <-tick.C:
 			if now := atomic.LoadInt64(&r.progress); now != last {
-				last, stalled = now, 0
-			} else if stalled += 500 * time.Millisecond; stalled >= stallLimit {
+				last, cpuAtLast = now, cpuSeconds()
+			} else if cpuSeconds()-cpuAtLast >= stallCPU {
 				return harness.RunResult{}, true
 			}
 		}
@@ -243,8 +244,6 @@ func init() {
 	fatalPoll = func(c pollCase, msg string) { pollFacet.Fatal(c, msg) }
 }
 
-const wedgeMsg = "the run went on for 40 s without reaching a single interrupt polling point (an interrupt can not be delivered: unbounded progress between polls)"
-
 func checkInject(c injectCase) harness.Outcome {
 	out := harness.Outcome{Classes: []string{"family:" + c.Family, "entry:" + c.Entry}}
 	ref := newRig()
@@ -387,8 +386,8 @@ var templates = []struct{ family, src string }{
 }
 
 var injectFacet = harness.Register(&harness.Facet[injectCase]{
-	Name: "interrupt-at-every-step",
-	Rule: "rapid: a program (templates covering empty-bodied loops of every form, bounded loops, recursion, callbacks inside sort/forEach/map/reduce/filter/replace/JSON/getters/valueOf, with, labels, try/finally, eval; or a program from the semantic generator) is submitted through one of the public entry points (Run, Eval, Otto.Call, Value.Call) and first run with a counting interrupt function that records the host-call trace length at every polling step; then for EVERY step k (all when ≤120 polls, else first/last 25 plus drawn positions) a fresh runtime runs it with an interrupt function that panics at step k. Oracle: Run panics with exactly that value, the trace equals the reference prefix recorded at k, scope depth and pending labels are 0, a global written before each host call still has its value, and a fixed battery (labels, try/finally, with, recursion, switch, sort) gives its normal result on the same runtime. Non-trivial = the program makes host calls and contains a function or comes from a template; distinct by (program, picks)",
+	Name:     "interrupt-at-every-step",
+	Rule:     "rapid: a program (templates covering empty-bodied loops of every form, bounded loops, recursion, callbacks inside sort/forEach/map/reduce/filter/replace/JSON/getters/valueOf, with, labels, try/finally, eval; or a program from the semantic generator) is submitted through one of the public entry points (Run, Eval, Otto.Call, Value.Call) and first run with a counting interrupt function that records the host-call trace length at every polling step; then for EVERY step k (all when ≤120 polls, else first/last 25 plus drawn positions) a fresh runtime runs it with an interrupt function that panics at step k. Oracle: Run panics with exactly that value, the trace equals the reference prefix recorded at k, scope depth and pending labels are 0, a global written before each host call still has its value, and a fixed battery (labels, try/finally, with, recursion, switch, sort) gives its normal result on the same runtime. Non-trivial = the program makes host calls and contains a function or comes from a template; distinct by (program, picks)",
 	Quick:    260,
 	Thorough: 2500,
 	Gen: func(t *rapid.T) injectCase {
@@ -420,8 +419,8 @@ type abnormalCase struct {
 }
 
 var abnormalFacet = harness.Register(&harness.Facet[abnormalCase]{
-	Name: "abnormal-exit-leaves-runtime-consistent",
-	Rule: "rapid: a template or generated program in which the i-th host-function call panics with a Go value (i over every host call of the reference run), or which ends in an uncaught exception or a stack-limit RangeError; oracle: whatever way Run ends (returned error, propagated panic), afterwards scope depth and pending labels are 0, effects before the exit are intact and the follow-up battery runs normally; a host panic outside any try must propagate out of Run unchanged; non-trivial = the exit happened inside a function call; distinct by (program, i)",
+	Name:     "abnormal-exit-leaves-runtime-consistent",
+	Rule:     "rapid: a template or generated program in which the i-th host-function call panics with a Go value (i over every host call of the reference run), or which ends in an uncaught exception or a stack-limit RangeError; oracle: whatever way Run ends (returned error, propagated panic), afterwards scope depth and pending labels are 0, effects before the exit are intact and the follow-up battery runs normally; a host panic outside any try must propagate out of Run unchanged; non-trivial = the exit happened inside a function call; distinct by (program, i)",
 	Quick:    400,
 	Thorough: 4000,
 	Gen: func(t *rapid.T) abnormalCase {
@@ -496,8 +495,8 @@ var depthForms = map[string]string{
 var depthExact = map[string]int{"function": 0, "method": 1, "constructor": 1, "getter": 1, "closure": -1}
 
 var depthFacet = harness.Register(&harness.Facet[depthCase]{
-	Name: "stack-depth-limit",
-	Rule: "rapid: stack depth limit L in 2..60 and a recursion of n = L-3..L+3 nested script-function activations through every call form (function, method, constructor, getter, closure factory; the number of activations is known by construction); oracle: the chain runs to completion iff n+1 <= L (global code is one level) and otherwise ends in a RangeError that a script-level try/catch catches, after which the runtime is at rest and reusable; non-trivial = |n+1-L| <= 1; distinct by (form, L, n)",
+	Name:     "stack-depth-limit",
+	Rule:     "rapid: stack depth limit L in 2..60 and a recursion of n = L-3..L+3 nested script-function activations through every call form (function, method, constructor, getter, closure factory; the number of activations is known by construction); oracle: the chain runs to completion iff n+1 <= L (global code is one level) and otherwise ends in a RangeError that a script-level try/catch catches, after which the runtime is at rest and reusable; non-trivial = |n+1-L| <= 1; distinct by (form, L, n)",
 	Quick:    1500,
 	Thorough: 12000,
 	Gen: func(t *rapid.T) depthCase {
@@ -547,6 +546,14 @@ type asyncCase struct {
 	DelayUS int    `json:"delay_us"`
 }
 
+func cpuSeconds() float64 {
+	var ru syscall.Rusage
+	if err := syscall.Getrusage(syscall.RUSAGE_SELF, &ru); err != nil {
+		return 0
+	}
+	return float64(ru.Utime.Sec+ru.Stime.Sec) + float64(ru.Utime.Usec+ru.Stime.Usec)/1e6
+}
+
 func goid() string {
 	b := make([]byte, 64)
 	b = b[:runtime.Stack(b, false)]
@@ -567,8 +574,8 @@ var nonTerminating = func() []string {
 }()
 
 var asyncFacet = harness.Register(&harness.Facet[asyncCase]{
-	Name: "async-delivery",
-	Rule: "rapid: a non-terminating program (every empty-bodied loop form, loops inside callbacks of sort/forEach/replace) and a delay; another goroutine sends a panicking function on the interrupt channel after the delay; oracle: Run ends with that panic within the watchdog (10 s against an expected few ms; a time-out is re-tried once before it counts), the function ran on the goroutine that called Run, nothing ran after it, runtime reusable. Deterministic companion: for every loop form, k more iterations cause >= k more polls (bounded progress between polls). Non-trivial = every case; distinct by (program, delay)",
+	Name:     "async-delivery",
+	Rule:     "rapid: a non-terminating program (every empty-bodied loop form, loops inside callbacks of sort/forEach/replace) and a delay; another goroutine sends a panicking function on the interrupt channel after the delay; oracle: Run ends with that panic within the watchdog (10 s of process CPU time after the send, measured with getrusage so that machine load cannot fake it; re-confirmed once; 150 s of wall clock without that much CPU is a discard), the function ran on the goroutine that called Run, nothing ran after it, runtime reusable. Deterministic companion: for every loop form, k more iterations cause >= k more polls (bounded progress between polls). Non-trivial = every case; distinct by (program, delay)",
 	Quick:    60,
 	Thorough: 400,
 	Gen: func(t *rapid.T) asyncCase {
@@ -600,8 +607,25 @@ var asyncFacet = harness.Register(&harness.Facet[asyncCase]{
 					panic(sentinel{-1})
 				}
 			}()
-			select {
-			case res := <-done:
+			// wait in CPU time, not wall time: on a loaded machine the process may simply not be scheduled.
+			// A Run that has burnt 10 s of CPU since the interrupt was sent without ending has stopped polling;
+			// 150 s of wall clock without that much CPU is inconclusive (counted as a discard).
+			startCPU, startWall := cpuSeconds(), time.Now()
+			var res harness.RunResult
+			for finished := false; !finished; {
+				select {
+				case res = <-done:
+					finished = true
+				case <-time.After(250 * time.Millisecond):
+					if cpuSeconds()-startCPU > 10 {
+						return "Run did not end although the process burnt 10 s of CPU after the interrupt was sent (the script stopped polling)", true
+					}
+					if time.Since(startWall) > 150*time.Second {
+						return "inconclusive", true
+					}
+				}
+			}
+			{
 				s, ok := res.Panic.(sentinel)
 				if !res.Panicked || !ok || s.K != -1 {
 					return fmt.Sprintf("Run ended with %s instead of the interrupt's panic", res.Describe()), false
@@ -620,16 +644,18 @@ var asyncFacet = harness.Register(&harness.Facet[asyncCase]{
 					return "battery after async interrupt: " + r2.Describe(), false
 				}
 				return "", false
-			case <-time.After(10 * time.Second):
-				return "Run did not end within 10 s of the interrupt being sent (stopped polling?)", true
 			}
 		}
 		msg, timedOut := attempt()
+		if timedOut && msg != "inconclusive" {
+			msg, timedOut = attempt() // re-confirm once
+		}
+		if msg == "inconclusive" {
+			out.Discard = "machine too loaded to judge asynchronous delivery (150 s wall without 10 s of CPU)"
+			return out
+		}
 		if timedOut {
-			msg, timedOut = attempt()
-			if timedOut {
-				fmt.Fprintln(os.Stderr, "async-delivery: watchdog hit twice for", c.Src)
-			}
+			fmt.Fprintln(os.Stderr, "async-delivery: watchdog hit twice for", c.Src)
 		}
 		if msg != "" {
 			out.Fail = msg + "\n" + c.Src
@@ -647,18 +673,18 @@ type pollCase struct {
 }
 
 var loopForms = map[string]string{
-	"for-empty-block":  `for(var i=0;i<%K;i++){}`,
-	"for-empty-stmt":   `for(var i=0;i<%K;i++);`,
-	"while-empty":      `var i=0; while(i++<%K);`,
-	"while-block":      `var i=0; while(i++<%K){}`,
-	"dowhile-empty":    `var i=0; do ; while(++i<%K);`,
-	"dowhile-block":    `var i=0; do {} while(++i<%K);`,
-	"forin-empty":      `var o={}; for(var j=0;j<%K;j++) o["k"+j]=1; for(var k in o);`,
+	"for-empty-block":   `for(var i=0;i<%K;i++){}`,
+	"for-empty-stmt":    `for(var i=0;i<%K;i++);`,
+	"while-empty":       `var i=0; while(i++<%K);`,
+	"while-block":       `var i=0; while(i++<%K){}`,
+	"dowhile-empty":     `var i=0; do ; while(++i<%K);`,
+	"dowhile-block":     `var i=0; do {} while(++i<%K);`,
+	"forin-empty":       `var o={}; for(var j=0;j<%K;j++) o["k"+j]=1; for(var k in o);`,
 	"labelled-continue": `var i=0; L: while(i++<%K){ continue L }`,
-	"recursion":        `function r(n){ return n<=0?0:r(n-1) } r(%K)`,
-	"foreach":          `var a=[]; for(var j=0;j<%K;j++) a[j]=j; a.forEach(function(){})`,
-	"sort":             `var a=[]; for(var j=0;j<%K;j++) a[j]=(j*7)%5; a.sort(function(x,y){return x-y})`,
-	"replace":          `var s=""; for(var j=0;j<%K;j++) s+="a"; s.replace(/a/g,function(){return "b"})`,
+	"recursion":         `function r(n){ return n<=0?0:r(n-1) } r(%K)`,
+	"foreach":           `var a=[]; for(var j=0;j<%K;j++) a[j]=j; a.forEach(function(){})`,
+	"sort":              `var a=[]; for(var j=0;j<%K;j++) a[j]=(j*7)%5; a.sort(function(x,y){return x-y})`,
+	"replace":           `var s=""; for(var j=0;j<%K;j++) s+="a"; s.replace(/a/g,function(){return "b"})`,
 }
 
 func pollsOf(src string) (int64, string) {
@@ -675,8 +701,8 @@ func pollsOf(src string) (int64, string) {
 }
 
 var pollFacet = harness.Register(&harness.Facet[pollCase]{
-	Name: "every-iteration-polls",
-	Rule: "rapid: a loop form (empty-bodied for/while/do-while in both spellings, for-in, labelled continue, recursion, forEach/sort/replace callbacks) run with K1 and K2 > K1 iterations under a counting interrupt function; oracle: polls(K2) - polls(K1) >= K2 - K1, i.e. no iteration of any loop form makes progress without reaching a polling point (so an interrupt is delivered before unbounded further progress); non-trivial = every case; distinct by (form, K1, K2)",
+	Name:     "every-iteration-polls",
+	Rule:     "rapid: a loop form (empty-bodied for/while/do-while in both spellings, for-in, labelled continue, recursion, forEach/sort/replace callbacks) run with K1 and K2 > K1 iterations under a counting interrupt function; oracle: polls(K2) - polls(K1) >= K2 - K1, i.e. no iteration of any loop form makes progress without reaching a polling point (so an interrupt is delivered before unbounded further progress); non-trivial = every case; distinct by (form, K1, K2)",
 	Quick:    300,
 	Thorough: 3000,
 	Gen: func(t *rapid.T) pollCase {
